@@ -53,7 +53,7 @@ CHECKS["C01"] = {
 
 CHECKS["C03"] = {
     "technique": "per-operation ownership-linearity: byte provenance of the owned sequence operations, step protocol (closure or explicit loop: one read/write and one position advance per step), per-path partition of the iterator's claimed range, Drop-range extraction, finisher evidence (position == N or a full traversal), finish-to-hand-over window",
-    "text": "Static analysis (MIR, lengths symbolic): 'exactly once over all histories' is reduced to ownership-linearity of each operation, which composes over any chain by induction. Checked: (T) in each by-value sequence operation the pieces read out of the drop-suppressed source / written into the uninitialised output tile it exactly once; (P) every element-moving closure reads (writes) its slot exactly once and advances each owner position exactly once per invocation on every path, untracked readers exist only under needs_drop == false; (R) each tracked owner's Drop releases exactly [0,position) / [position,N) / [index,index_back) of its own storage and the storage field has no drop glue; (F) every finish/forget/assume_init of a builder or iterator is reached only where position == N is implied by the dominating facts or after a full traversal of the owner's storage by a protocol closure; (S) every ManuallyDrop::new / mem::forget of a value with element drop glue belongs to an accounted pattern; (A) the assume_init family reinterprets whole storage of equal symbolic size. Nothing is executed; destructor calls are not observed.",
+    "text": "Static analysis (MIR, lengths symbolic): 'exactly once over all histories' is reduced to ownership-linearity of each operation, which composes over any chain by induction. Checked: (T) in each by-value sequence operation the pieces read out of the drop-suppressed source / written into the uninitialised output tile it exactly once; (P) every element-moving closure reads (writes) its slot exactly once and advances each owner position exactly once per invocation on every path, untracked readers exist only under needs_drop == false; (R) each tracked owner's Drop releases exactly [0,position) / [position,N) / [index,index_back) of its own storage and the storage field has no drop glue; (F) every finish/forget/assume_init of a builder or iterator is reached only where position == N is implied by the dominating facts or after a full traversal of the owner's storage by a protocol closure; (S) every ManuallyDrop::new / mem::forget of a value with element drop glue belongs to an accounted pattern; (A) the assume_init family reinterprets whole storage of equal symbolic size. Nothing is executed; destructor calls are not observed. C03.U: no element out of nothing - assume_init that turns freshly made uninitialised storage (MaybeUninit::uninit, Box::new_uninit ..) into a type holding real elements is dominated by a builder's finish() (whose completeness is C03.F).",
     "design_ref": "DESIGN.md §3 C03",
     "note": TRUST + " Panic-free histories only (panics: C04, C05). Vec/Box interop is safe std code or C15's instances.",
 }
